@@ -64,7 +64,14 @@ def main(argv=None):
         for ent in core.load_known(pid):
             data = core.load_replay(ent["replay"])
             spec = data["spec"] if isinstance(data, dict) and "spec" in data else data
-            keys = _buckets_of(mod, spec)
+            try:
+                keys = _buckets_of(mod, spec)
+            except Exception as e:
+                # the stored replay cannot be executed on this tree (e.g. the fixture store cannot
+                # be built): the entry is inert for this run; generated cases are judged as usual
+                print("note: stored replay %s could not be executed here (%s: %s)"
+                      % (ent["replay"], type(e).__name__, str(e)[:120]), file=sys.stderr)
+                continue
             if ent.get("status", "known") == "fixed":
                 if keys:
                     regressions.append((ent, keys))
@@ -108,7 +115,7 @@ def main(argv=None):
             getattr(mod, "RULE", ""), getattr(mod, "ASSUMPTIONS", []),
             time.time() - t0, violations, known_hit,
             exhaustive=col.extra.pop("exhaustive", None))
-        if col.evaluations == 0 or len(col.nontrivial) < 2:
+        if not violations and (col.evaluations == 0 or len(col.nontrivial) < 2):
             print("harness error: vacuous run (evaluations=%d nontrivial=%d)"
                   % (col.evaluations, len(col.nontrivial)), file=sys.stderr)
             return 2
